@@ -9,13 +9,13 @@ CONSTANTS Rpm,        \* rpm token -> [src |-> is a source package (arch src/nos
           BinArch,    \* tree architectures accepted (known, not src/nosrc)
           Cats,       \* {"binary","debug","source"}
           OkForms,    \* name renderings that parse: {"canon","rpm","dir","dirrpm"}
-          OkPaths     \* relative non-empty path tokens
+          OkPaths,    \* relative non-empty path tokens
+          Lower(_)    \* signing key as stored: lower-cased, null stays null (tokens in the generators, real strings in traces)
 VARIABLES rpms, out
 vars == <<rpms, out>>
 NoRpms == [k \in {} |-> 0]
 Init == rpms = NoRpms /\ out = "new"
 
-Lower(sig) == IF sig = "mixed" THEN "mixedlower" ELSE sig      \* null stays null
 \* srpm: "none" or a source rpm token; sform: its rendering
 Refused(a, r, form, path, cat, srpm, sform) ==
   \/ a \notin BinArch
@@ -63,7 +63,7 @@ NoSourceArch == \A k \in DOMAIN rpms : k[2] \in BinArch                         
 \* every entry sits under its own source package (a source rpm under itself)             \* C12
 UnderSource == \A k \in DOMAIN rpms : IF Rpm[k[4]].src THEN k[3] = k[4] /\ rpms[k].category = "source"
                                       ELSE Rpm[k[3]].src /\ rpms[k].category # "source"
-SigLower == \A k \in DOMAIN rpms : rpms[k].sigkey # "mixed"
+SigLower == \A k \in DOMAIN rpms : Lower(rpms[k].sigkey) = rpms[k].sigkey
 RefusedIsNoop == [][out' \in {"refused", "KeyError"} => UNCHANGED rpms]_vars
 \* a successful add touches exactly one entry
 OnlyAddressed == [][out' = "ok" /\ rpms # rpms' /\ Cardinality(DOMAIN rpms') <= Cardinality(DOMAIN rpms) + 1 =>
